@@ -29,7 +29,12 @@ fn build_node(
             ref value_type,
             size,
         } => build_array(json_val, value_type, size, path),
-        spec::Node::AnonMap { ref value_type, .. } => build_anon_map(json_val, value_type, path),
+        spec::Node::AnonMap {
+            ref value_type,
+            min_size,
+            max_size,
+            ..
+        } => build_anon_map(json_val, value_type, min_size, max_size, path),
         spec::Node::Variant {
             map: ref spec_map, ..
         } => build_variant(json_val, spec_map, path),
@@ -199,9 +204,32 @@ fn build_array(
     }
 }
 
+fn check_anon_map_size(
+    size: usize,
+    min_size: Option<usize>,
+    max_size: Option<usize>,
+    path: &[&str],
+) -> Result<(), Error> {
+    let out_of_bounds = match (min_size, max_size) {
+        (Some(min_size), _) if size < min_size => true,
+        (_, Some(max_size)) if size > max_size => true,
+        _ => false,
+    };
+
+    if out_of_bounds {
+        Err(Error::AnonMapSizeNotWithinBounds {
+            path_hint: format_path(path),
+        })
+    } else {
+        Ok(())
+    }
+}
+
 fn build_anon_map(
     json_val: &serde_json::Value,
     spec_node: &spec::Node,
+    min_size: Option<usize>,
+    max_size: Option<usize>,
     path: &[&str],
 ) -> Result<Node, Error> {
     match json_val {
@@ -215,6 +243,7 @@ fn build_anon_map(
                 result_mapping.insert(next_id, Box::new(value));
             }
 
+            check_anon_map_size(result_mapping.len(), min_size, max_size, path)?;
             Ok(Node::AnonMap(result_mapping))
         }
         serde_json::Value::Object(json_mapping) => {
@@ -236,6 +265,7 @@ fn build_anon_map(
                 result_mapping.insert(key, Box::new(value));
             }
 
+            check_anon_map_size(result_mapping.len(), min_size, max_size, path)?;
             Ok(Node::AnonMap(result_mapping))
         }
         _ => Err(Error::WrongTypeForValue {
